@@ -1,6 +1,222 @@
 /-
-  C11 — property theorems (placeholder: no theorem yet, the property is not claimed).
+  C11 — Raw pixel load/store and iteration round-trip in both data orders.
+
+  Property theorems only (helper lemmas live in EG/Lemmas/Raw*.lean). All statements are about the
+  model `EG.Model.Raw` (a literal transcription of core/src/pixelcolor/raw/{load_store,mod,to_bytes}.rs
+  and src/iterator/raw.rs, tied to the code by the `raw.*` correspondence streams).
+
+  Quantifiers: `bits` ranges over the seven raw types (`validBits bits`), `o` over both data orders,
+  `buf` over byte buffers of ANY length (`BytesOk buf`: every element is a `u8`), `i`, `j`, `k` over
+  ALL natural numbers, `v` over all values of the raw type (`v < 2^bits`, what `RawUx::new` produces).
+  Strength: everything below is proved for all inputs; the only kernel-evaluated ingredient is the
+  byte-level law of the sub-byte depths (`subbyte_byte_law`: six tables over the whole domain
+  old byte x slot x value x other slot / bit position), which is then lifted by proof.
+
+  Observation (belongs to C08, not claimed here): `index * 2/3/4` in the real `load`/`store` is
+  `usize` arithmetic and overflows (debug panic) for indices above `usize::MAX / 4`; the model's
+  indices are `Nat`. The saturating operations of `nth` / `size_hint` are modelled; they are exact
+  under `Iter.Fits` (slice shorter than 2^61 bytes).
 -/
-import EG.Basic.Core
+import EG.Lemmas.RawIter
+import EG.Lemmas.RawLayout
 namespace EG.C11
+open EG EG.Raw
+
+/-! ### Byte level (sub-byte depths): kernel evaluation over the whole domain -/
+
+/-- For 1, 2 and 4 bits per pixel, both orders, EVERY old byte, slot and value: the new byte is a
+byte; loading the slot gives the value; every other slot loads what it did; bit `sh + j` of the
+new byte is bit `j` of the value and every bit outside the slot's field is the old bit. -/
+theorem subbyte_byte_law {bits : Nat} {o : Order} (h : subByte bits) {b k v : Nat}
+    (hb : b < 256) (hk : k < 8 / bits) (hv : v < 2 ^ bits) :
+    storeByte bits (slotShift bits o k) v b < 256 ∧
+    loadByte bits (slotShift bits o k) (storeByte bits (slotShift bits o k) v b) = v ∧
+    (∀ k', k' < 8 / bits → k' ≠ k →
+      loadByte bits (slotShift bits o k') (storeByte bits (slotShift bits o k) v b)
+        = loadByte bits (slotShift bits o k') b) ∧
+    (∀ p, p < 8 →
+      (storeByte bits (slotShift bits o k) v b).testBit p =
+        if slotShift bits o k ≤ p ∧ p < slotShift bits o k + bits then v.testBit (p - slotShift bits o k)
+        else b.testBit p) :=
+  byteLaw_spec h hb hk hv
+
+/-! ### `store` then `load` -/
+
+/-- `store(v, buf, i)` followed by `load(buf, i)` returns `v`. -/
+theorem load_store_same {bits : Nat} (hb : validBits bits = true) (o : Order) {v : Nat}
+    {buf : List Nat} {i : Nat} (hw : BytesOk buf) (hv : v < 2 ^ bits)
+    (hin : i < pixelCount bits buf.length) :
+    (store bits o v buf i).1 = true ∧ load bits o (store bits o v buf i).2 i = some v :=
+  ⟨store_inside hb o v buf i hin, Raw.load_store_same hb o hw hv hin⟩
+
+/-- ... and every other index (in another byte or in the same byte) loads what it loaded before. -/
+theorem load_store_other {bits : Nat} (hb : validBits bits = true) (o : Order) {v : Nat}
+    {buf : List Nat} {i j : Nat} (hw : BytesOk buf) (hv : v < 2 ^ bits) (hne : j ≠ i) :
+    load bits o (store bits o v buf i).2 j = load bits o buf j :=
+  Raw.load_store_other hb o hw hv hne
+
+/-- `store` changes only pixel `i`'s byte(s): the length is kept and every byte position that
+does not belong to pixel `i` (`ownByte`: byte `i / pixels_per_byte`, resp. the `bits/8` bytes from
+`i * bits/8`) keeps its content. -/
+theorem store_touches_only {bits : Nat} (hb : validBits bits = true) (o : Order) (v : Nat)
+    (buf : List Nat) (i : Nat) :
+    (store bits o v buf i).2.length = buf.length ∧
+    ∀ k, ¬ ownByte bits i k → (store bits o v buf i).2[k]? = buf[k]? :=
+  ⟨store_length hb o v buf i, fun k hk => store_other_bytes hb o v buf i k hk⟩
+
+/-- Sub-byte depths, inside pixel `i`'s byte: exactly the `bits` bits of the pixel's field
+`[bit_index, bit_index + bits)` are replaced (by the bits of `v`), every other bit is the old one. -/
+theorem store_touches_only_bits {bits : Nat} {o : Order} {v : Nat} {buf : List Nat} {i : Nat}
+    (h : subByte bits) (hw : BytesOk buf) (hv : v < 2 ^ bits) (hlt : i / (8 / bits) < buf.length) :
+    ∃ nb, (store bits o v buf i).2[i / (8 / bits)]? = some nb ∧ nb < 256 ∧
+      ∀ p, p < 8 → nb.testBit p =
+        if slotShift bits o (i % (8 / bits)) ≤ p ∧ p < slotShift bits o (i % (8 / bits)) + bits
+        then v.testBit (p - slotShift bits o (i % (8 / bits)))
+        else buf[i / (8 / bits)].testBit p := by
+  rw [store_sub h]
+  exact storeBits_own_byte h hw hv hlt
+
+/-- The buffer stays a byte buffer. -/
+theorem store_preserves_bytes {bits : Nat} (hb : validBits bits = true) (o : Order) {v : Nat}
+    {buf : List Nat} (i : Nat) (hw : BytesOk buf) (hv : v < 2 ^ bits) :
+    BytesOk (store bits o v buf i).2 :=
+  store_bytesOk hb o i hw hv
+
+/-! ### Index beyond the buffer -/
+
+/-- `store` with an index beyond the buffer returns the error and leaves the buffer unchanged;
+it succeeds for every index inside. -/
+theorem store_oob {bits : Nat} (hb : validBits bits = true) (o : Order) (v : Nat) (buf : List Nat)
+    (i : Nat) :
+    (pixelCount bits buf.length ≤ i → store bits o v buf i = (false, buf)) ∧
+    (i < pixelCount bits buf.length → (store bits o v buf i).1 = true) :=
+  ⟨store_outside hb o v buf i, store_inside hb o v buf i⟩
+
+/-- `load` returns `None` exactly for the indices beyond the buffer. -/
+theorem load_oob {bits : Nat} (hb : validBits bits = true) (o : Order) (buf : List Nat) (i : Nat) :
+    load bits o buf i = none ↔ pixelCount bits buf.length ≤ i :=
+  load_eq_none_iff hb o buf i
+
+/-- What `load` returns is a value of the raw type. -/
+theorem load_in_range {bits : Nat} (hb : validBits bits = true) (o : Order) {buf : List Nat}
+    {i v : Nat} (hw : BytesOk buf) (hl : load bits o buf i = some v) : v < 2 ^ bits :=
+  load_lt hb o hw hl
+
+/-- The number of pixels of a buffer: `len * (8 / bits)` below 8 bits, `len / (bits / 8)` above
+(excess bytes are ignored). -/
+theorem pixel_count_spec (bits len : Nat) :
+    pixelCount bits len = if bits < 8 then len * (8 / bits) else len / (bits / 8) := rfl
+
+/-! ### The documented layout -/
+
+/-- Sub-byte depths: pixel `i` lives in byte `i / pixels_per_byte`, slot `s = i % pixels_per_byte`;
+bit `k` of its value is bit `8 - bits*(s+1) + k` of that byte for `LittleEndianMsb0` (slots are
+filled from the most significant bits downwards) and bit `bits*s + k` for `BigEndianLsb0` (from
+the least significant bits upwards). -/
+theorem layout_subbyte {bits : Nat} (h : subByte bits) (o : Order) {buf : List Nat} {i v : Nat}
+    (hl : load bits o buf i = some v) {k : Nat} (hk : k < bits) :
+    ∃ b, buf[i / (8 / bits)]? = some b ∧
+      v.testBit k = b.testBit
+        ((match o with
+          | .le => 8 - bits * (i % (8 / bits) + 1)
+          | .be => bits * (i % (8 / bits))) + k) := by
+  rw [load_sub h] at hl
+  obtain ⟨b, hb, ht⟩ := loadBits_testBit hl hk
+  refine ⟨b, hb, ?_⟩
+  rw [ht]
+  cases o with
+  | le => rw [slotShift_le h (Nat.mod_lt _ (ppb_pos h))]
+  | be => rw [slotShift_be]
+
+/-- 8 bits: pixel `i` is byte `i`, in either order. -/
+theorem layout_u8 (o : Order) (buf : List Nat) (i : Nat) : load 8 o buf i = buf[i]? := rfl
+
+/-- 16/24/32 bits, `n = bits/8`: byte `j` (base-256 digit `j`, `j = 0` least significant) of
+pixel `i` is stored at `i*n + j` for `LittleEndianMsb0` and at `i*n + (n-1-j)` for `BigEndianLsb0`. -/
+theorem layout_multibyte {bits : Nat} (h : multiByte bits) (o : Order) {buf : List Nat} {i v : Nat}
+    (hw : BytesOk buf) (hl : load bits o buf i = some v) {j : Nat} (hj : j < bits / 8) :
+    buf[i * (bits / 8) + (match o with | .le => j | .be => bits / 8 - 1 - j)]?
+      = some (v / 256 ^ j % 256) := by
+  rw [load_multi h] at hl
+  have := loadBytes_digit hw hl hj
+  cases o <;> simpa [Order.alt] using this
+
+/-- The bytes written by a multi-byte `store` are the base-256 digits of the value:
+`v % 256, v / 256 % 256, ...` (little endian; reversed for big endian). -/
+theorem to_le_bytes_spec (v : Nat) :
+    toLe 2 v = [v % 256, v / 256 % 256] ∧
+    toLe 3 v = [v % 256, v / 256 % 256, v / 256 / 256 % 256] ∧
+    toLe 4 v = [v % 256, v / 256 % 256, v / 256 / 256 % 256, v / 256 / 256 / 256 % 256] ∧
+    toBe 2 v = [v / 256 % 256, v % 256] :=
+  ⟨rfl, rfl, rfl, rfl⟩
+
+/-! ### `RawDataIterator` -/
+
+/-- Iterating a `RawDataSlice` yields exactly `load(0), load(1), ...`, as many as fit
+(`pixelCount`; excess bytes are ignored). -/
+theorem iter_toList {bits : Nat} (hb : validBits bits = true) (o : Order) (data : List Nat) :
+    (Iter.new bits o data).toList.map some
+      = (List.range (pixelCount bits data.length)).map (load bits o data) := by
+  have := Iter.toList_eq_rest (Iter.new bits o data) hb
+  rw [this]
+  simp only [Iter.rest, Iter.new, Iter.count, Nat.sub_zero, List.range_eq_range']
+
+/-- From any position: the iterator still yields `load(index), load(index+1), ...`. -/
+theorem iter_toList_from (it : Iter) (hb : validBits it.bits = true) :
+    it.toList.length = pixelCount it.bits it.data.length - it.index ∧
+    ∀ k, it.toList[k]? = load it.bits it.order it.data (it.index + k) :=
+  ⟨Iter.toList_length it hb, Iter.toList_getElem? it hb⟩
+
+/-- `next` returns the head of what is still to come and leaves the tail. -/
+theorem iter_next (it : Iter) (hb : validBits it.bits = true) :
+    it.next.1 = it.toList[0]? ∧ it.next.2.toList = it.toList.drop 1 := by
+  refine ⟨?_, ?_⟩
+  · rw [Iter.next_fst, Iter.toList_getElem? it hb]; rfl
+  · apply List.ext_getElem?
+    intro m
+    rw [Iter.next_snd_getElem? it hb, List.getElem?_drop, Iter.toList_getElem? it hb]
+    congr 1; omega
+
+/-- `nth(k)` = skip `k` items, then `next`: it returns item `k` of what was still to come
+(`None` if there are not that many) and leaves everything after it. -/
+theorem iter_nth (it : Iter) (hb : validBits it.bits = true) (hf : it.Fits) (k : Nat) :
+    (it.nth k).1 = it.toList[k]? ∧ (it.nth k).2.toList = it.toList.drop (k + 1) := by
+  refine ⟨?_, Iter.nth_snd_toList it hb hf k⟩
+  rw [Iter.nth_fst it hb hf, Iter.toList_getElem? it hb]
+
+/-- In particular `nth(k)` on a fresh iterator is `load(k)` (what `ImageRaw::pixel` relies on). -/
+theorem iter_nth_fresh {bits : Nat} (hb : validBits bits = true) (o : Order) (data : List Nat)
+    (hf : data.length * 8 ≤ usizeMax) (k : Nat) :
+    ((Iter.new bits o data).nth k).1 = load bits o data k := by
+  have := Iter.nth_fst (Iter.new bits o data) hb hf k
+  simpa [Iter.new] using this
+
+/-- `size_hint` is exact at every position: lower = upper = number of remaining items. -/
+theorem size_hint_exact (it : Iter) (hb : validBits it.bits = true) (hf : it.Fits) :
+    it.sizeHint = (it.toList.length, some it.toList.length) := by
+  rw [Iter.sizeHint_eq it hf, Iter.toList_length it hb]
+
+/-- ... hence it brackets the number of remaining items. -/
+theorem size_hint_brackets (it : Iter) (hb : validBits it.bits = true) (hf : it.Fits) :
+    it.sizeHint.1 ≤ it.toList.length ∧ ∀ u, it.sizeHint.2 = some u → it.toList.length ≤ u := by
+  rw [size_hint_exact it hb hf]
+  exact ⟨Nat.le_refl _, fun u hu => by cases hu; exact Nat.le_refl _⟩
+
+/-! ### Non-vacuity: concrete instances of the hypotheses used above -/
+
+example : validBits 2 = true ∧ subByte 2 ∧ multiByte 24 := by decide
+example : (0x2D : Nat) < 256 ∧ 3 < 8 / 2 ∧ 2 < 2 ^ 2 := by decide
+example : BytesOk [0x12, 0xA5, 0xFF] := by intro b hb; simp at hb; omega
+example : 5 < pixelCount 2 [0x12, 0xA5, 0xFF].length := by decide
+example : store 2 .le 1 [0x12, 0xA5, 0xFF] 5 = (true, [0x12, 0x95, 0xFF]) := by decide
+example : store 2 .be 1 [0x12, 0xA5, 0xFF] 5 = (true, [0x12, 0xA5, 0xFF]) := by decide
+example : store 2 .be 3 [0x12, 0xA5, 0xFF] 5 = (true, [0x12, 0xAD, 0xFF]) := by decide
+example : store 24 .be 0x123456 [1, 2, 3, 4, 5, 6, 7] 1 = (true, [1, 2, 3, 0x12, 0x34, 0x56, 7]) := by decide
+example : store 16 .le 0x1234 [1, 2, 3] 1 = (false, [1, 2, 3]) := by decide
+example : load 4 .le [0x12, 0xA5] 2 = some 0xA ∧ load 4 .be [0x12, 0xA5] 2 = some 5 := by decide
+example : ¬ ownByte 16 1 1 ∧ ownByte 16 1 2 ∧ ownByte 16 1 3 ∧ ¬ ownByte 16 1 4 := by decide
+example : (Iter.new 16 .be [0xAA, 0xBB, 0x12, 0x34, 0x99]).toList = [0xAABB, 0x1234] := by decide
+example : (Iter.new 16 .be [0xAA, 0xBB, 0x12, 0x34, 0x99]).Fits := by decide
+example : ((Iter.new 4 .le [0x12, 0xA5, 0x77]).nth 3).1 = some 5 := by decide
+
 end EG.C11
